@@ -530,8 +530,8 @@ theorem list_on_prefixed {cfg cfg' : Cfg} (R : CfgRel cfg cfg') (hmk : MkOk mk) 
     (pos := mk.length) (mv := mv) (mc := mc) (n := L.length) (r := r)
     (item := ⟨t'.nodeKind, some r, t'.children⟩) hindA hspA hcurA (hdet l0) (hmc l0)
     (by rw [hA1] at hloop; simp only [hA0line] at hloop ⊢; exact hloop)
-    (by rw [hA1]; simp only; rw [hA0c]; rfl) (by simp only; rw [hfr'.nodeKind, hB]) (by rw [hA1]) hn1
-    (by simp only [BState.getMap, hA0line]; rw [hA1]; simp only [hr0, liftL_ok'])
+    rfl (by simp only; rw [hfr'.nodeKind, hB]) rfl hn1
+    (by simp only [BState.getMap, hA0line, hr0, liftL_ok'])
   refine ⟨_, r, hrule, ?_, ?_, ?_, ?_, ?_, ?_⟩
   · simp only [ht'l]
   · simp only; rw [hfr'.lineMax, hB]; exact hlmA
@@ -541,6 +541,222 @@ theorem list_on_prefixed {cfg cfg' : Cfg} (R : CfgRel cfg cfg') (hmk : MkOk mk) 
     subst hC
     cases t.tight <;> simp
   · rw [← hr0, hA0]; rfl
+/-- reading line 0 of the prefixed document in the fresh state -/
+theorem fresh_item_reads (hmk : MkOk mk) (D : List Char) {l0 t0 : List Char} {rest : DLines}
+    (hL0 : Lines.linesT D = (l0, t0) :: rest) :
+    (BState.fresh (itemDoc mk D) .root []).lineIndent 0 = .ok 0 ∧
+    (BState.fresh (itemDoc mk D) .root []).getLine 0 = .ok (mk ++ ' ' :: l0) ∧
+    (BState.fresh (itemDoc mk D) .root []).isEmpty 0 = false := by
+  obtain ⟨L, hLdef⟩ : ∃ L, L = Lines.linesT D := ⟨_, rfl⟩
+  rw [← hLdef] at hL0
+  have hn1 : 1 ≤ L.length := by rw [hL0]; simp
+  have hg0 : L[0] = (l0, t0) := by simp [hL0]
+  obtain ⟨A0, hA0⟩ : ∃ A0, A0 = BState.fresh (itemDoc mk D) .root [] := ⟨_, rfl⟩
+  rw [← hA0]
+  have hoffsA : A0.offs = Lines.offsetsOf 0 (indentLines (preAt mk) L) := by
+    rw [hA0, hLdef]; exact splitLines_itemDoc hmk D
+  have hsrcA : A0.src = Lines.flat (indentLines (preAt mk) L) := by rw [hA0, hLdef]; rfl
+  have hA0blk : A0.blkIndent = 0 := by rw [hA0]; rfl
+  have hentA : A0.offs[0]? = some (freshEntry (indentLines (preAt mk) L) 0) := by
+    rw [hoffsA]; exact offsetsOf_entry _ 0 (by rw [indentLines_length]; omega)
+  have hfirstE : freshEntry (indentLines (preAt mk) L) 0 = ⟨0, mk.length + 1 + Lines.byteLen l0, 0, 0⟩ := by
+    have := fresh_first (L := L) hmk (by omega)
+    rw [hg0] at this; exact this
+  refine ⟨?_, ?_, ?_⟩
+  · simp [BState.lineIndent, Lines.lineIndent, hentA, hfirstE, hA0blk, liftL]
+  · simp only [BState.getLine, Lines.getLine, hentA, hfirstE, hsrcA, slice_first_line hmk hL0, liftL_ok']
+  · simp [BState.isEmpty, Lines.isEmpty, hentA, hfirstE]
+
+/-- the rules that may stand in front of the list rule in the chain -/
+def frontOkL : RuleId → Bool
+  | .code | .fence | .blockquote | .hr | .reference | .heading => true
+  | _ => false
+
+/-- the thematic-break rule in real mode rejects a line that its look-ahead rejects -/
+theorem hr_rejects {s : BState} {line : List Char} (hind : s.lineIndent s.line = .ok 0)
+    (hline : s.getLine s.line = .ok line) (h : hrLook 0 line = false) : hrRule s false = .ok (false, s) := by
+  unfold hrRule
+  simp only [hind, ok_bind, show ¬ ((0 : Int) ≥ 4) by omega, if_false, hline]
+  unfold hrLook at h
+  simp only [show ¬ ((0 : Int) ≥ 4) by omega, if_false] at h
+  cases line with
+  | nil => rfl
+  | cons m rest =>
+    simp only at h ⊢
+    split
+    · rfl
+    · rw [if_neg ‹_›] at h
+      split
+      · rfl
+      · rename_i cnt hc
+        rw [hc] at h
+        simp only [Bool.not_eq_false', decide_eq_true_eq] at h
+        rw [if_pos h]
+        rfl
+
+/-- a front rule rejects a line that starts with a list-marker character at indent 0 (and is not a
+    thematic break) -/
+theorem front_rejects_L {cfg : Cfg} {tok : Tok} {test : Test} {fuel : Nat} {r : RuleId} (hr : frontOkL r = true)
+    {s : BState} {c : Char} {rest : List Char} (hind : s.lineIndent s.line = .ok 0)
+    (hline : s.getLine s.line = .ok (c :: rest))
+    (hc : c ≠ '~' ∧ c ≠ '`' ∧ c ≠ '>' ∧ c ≠ '#' ∧ c ≠ '[') (hhr : r = .hr → hrLook 0 (c :: rest) = false) :
+    runRule cfg tok test fuel r s false = .ok (false, s) := by
+  cases r <;> simp [frontOkL] at hr
+  · simp [runRule, codeRule, hind, pure, Except.pure]
+  · simp [runRule, fenceRule, hind, hline, pure, Except.pure, hc.1, hc.2.1]
+  · simp [runRule, blockquoteRule, hind, hline, pure, Except.pure, hc.2.2.1]
+  · exact hr_rejects hind hline (hhr rfl)
+  · simp [runRule, referenceRule, hind, hline, pure, Except.pure, hc.2.2.2.2]
+  · simp [runRule, headingRule, hind, hline, pure, Except.pure, hc.2.2.2.1]
+
+theorem runChain_front_L {run : RuleId → BState → Bool → Res} {s : BState} :
+    ∀ (pre : List RuleId) (post : List RuleId), (∀ r ∈ pre, run r s false = .ok (false, s)) →
+      runChain run (pre ++ post) s false = runChain run post s false := by
+  intro pre
+  induction pre with
+  | nil => intro post _; rfl
+  | cons r rs ih =>
+    intro post h
+    simp only [List.cons_append, runChain, h r (by simp)]
+    exact ih post (fun x hx => h x (List.mem_cons_of_mem _ hx))
+
+/-- what `tau` does, in terms of the two documents: byte `x` of line `i` of `D` (the position of the line's
+    end included) lands on byte `w + x` of line `i` of the prefixed document -/
+theorem tau_spec (hmk : MkOk mk) (D : List Char) (htab : '\t' ∉ D) (hsize : Lines.byteLen D + 8 < 2147483648) {i : Nat}
+    (h : i < (Lines.linesT D).length) {x : Nat} (hx : x ≤ Lines.byteLen (Lines.linesT D)[i].1) :
+    tau (mk.length + 1) (Lines.linesT D) (startOf (Lines.linesT D) i + x)
+      = startOf (indentLines (preAt mk) (Lines.linesT D)) i + (mk.length + 1) + x := by
+  rw [tau_in_line _ (linesOk_linesT D htab hsize) h hx, startOf_indent (preOk_preAt hmk) _ _ (Nat.le_of_lt h)]
+
+/-- **C06, list half, whole document** (general marker).  `D` a tab-free document whose first line is not
+    blank and is indented by 0 or ≥ 4 columns; `mk` a marker the list rule recognises (`hdet`, `hmc`:
+    `detectMarker` / `markerCharOf` on a line `mk ++ " " ++ …`), made of one-byte non-blank characters, not
+    starting with a character another front rule reacts to; the chain of `cfg` has the list rule behind
+    rules of `frontOkL` only, and if the thematic-break rule is among them the marker line is not a
+    thematic break.  If the block tokenizer accepts `D` (final state `t`), then with two more levels of
+    nesting allowed `itemDoc mk D` parses to a root with exactly one child, a list of the marker's kind
+    with exactly one item, both over all lines, whose children are the blocks of `D` with every position
+    moved by `tau` — paragraphs unwrapped exactly when the run on `D` ended `tight` — and the reference
+    definitions collected are the same. -/
+theorem item_commutes_gen (cfg : Cfg) (hmk : MkOk mk) {mv : Option Nat} {mc : Char}
+    (hdet : ∀ rest, detectMarker (mk ++ ' ' :: rest) = .ok (some (mk.length, mv)))
+    (hmc : ∀ rest, markerCharOf (mk ++ ' ' :: rest) mk.length = .ok mc)
+    (hc0 : ∀ c r, mk = c :: r → c ≠ '~' ∧ c ≠ '`' ∧ c ≠ '>' ∧ c ≠ '#' ∧ c ≠ '[')
+    (D : List Char) (htab : '\t' ∉ D) (hsize : Lines.byteLen D + mk.length + 9 < 2147483648)
+    (hfirst : FirstOk (Lines.linesT D)) (hnest : 0 < cfg.maxNesting)
+    (pre post : List RuleId) (hchain : cfg.chain = pre ++ .list :: post)
+    (hpre : ∀ r ∈ pre, frontOkL r = true)
+    (hhr : .hr ∈ pre → ∀ l0 t0 rest, Lines.linesT D = (l0, t0) :: rest → hrLook 0 (mk ++ ' ' :: l0) = false)
+    {t : BState} (h : tokenize cfg (fuelFor cfg D) (BState.fresh D .root []) = .ok t) :
+    ∃ r, Lines.getMap (Lines.splitLines (itemDoc mk D)) 0 ((Lines.linesT D).length - 1) = .ok r ∧
+      parseBlocks { cfg with maxNesting := cfg.maxNesting + 2 } (itemDoc mk D) =
+      .ok (⟨.root, some (0, Lines.byteLen (itemDoc mk D)),
+            [⟨kindOf mv mc, some r, [⟨.listItem, some r,
+              if t.tight then markTight (relocNodes (tau (mk.length + 1) (Lines.linesT D)) t.children)
+              else relocNodes (tau (mk.length + 1) (Lines.linesT D)) t.children⟩]⟩]⟩, t.refs) := by
+  obtain ⟨cfg', hcfg'⟩ : ∃ c, c = { cfg with maxNesting := cfg.maxNesting + 2 } := ⟨_, rfl⟩
+  have R : CfgRel cfg cfg' := by subst hcfg'; exact ⟨rfl, rfl, rfl, rfl, rfl⟩
+  rw [← hcfg']
+  have hn : (Lines.splitLines D).length = (Lines.linesT D).length := by rw [Lines.splitLines_eq]; simp
+  have hn' : (Lines.splitLines (itemDoc mk D)).length = (Lines.linesT D).length := by
+    rw [splitLines_itemDoc hmk]; simp
+  obtain ⟨l0, t0, rest, hL0, hnb, hind⟩ := id hfirst
+  have hn1 : 1 ≤ (Lines.linesT D).length := by rw [hL0]; simp
+  have hmk1 : 1 ≤ mk.length := by
+    cases hm : mk with
+    | nil => exact absurd hm hmk.ne
+    | cons c r => simp
+  obtain ⟨G, hG, hle, hGn⟩ : ∃ G, fuelFor cfg' (itemDoc mk D) = G + 2 ∧ fuelFor cfg D ≤ G + 1 ∧
+      (Lines.linesT D).length < G + 2 := by
+    refine ⟨fuelFor cfg' (itemDoc mk D) - 2, ?_, ?_, ?_⟩
+    · unfold fuelFor; omega
+    · unfold fuelFor
+      rw [hn, hn', byteLen_itemDoc hmk, R.nesting]
+      have : 2 ≤ (mk.length + 1) * (Lines.linesT D).length := by
+        calc 2 = 2 * 1 := rfl
+          _ ≤ (mk.length + 1) * (Lines.linesT D).length := Nat.mul_le_mul (by omega) hn1
+      omega
+    · unfold fuelFor
+      rw [hn']
+      omega
+  have ht := tokenize_mono hle h
+  obtain ⟨t1, r, hrule, h1, h2, h3, h4, h5, h6⟩ := list_on_prefixed R hmk D htab hsize hfirst hnest hdet hmc (G := G + 1) ht
+  refine ⟨r, h6, ?_⟩
+  obtain ⟨hind0, hline0, hne0⟩ := fresh_item_reads hmk D hL0
+  obtain ⟨c0, r0, hc0r⟩ : ∃ c r, mk = c :: r := by
+    cases hm : mk with
+    | nil => exact absurd hm hmk.ne
+    | cons c r => exact ⟨c, r, rfl⟩
+  have hline0' : (BState.fresh (itemDoc mk D) .root []).getLine 0 = .ok (c0 :: (r0 ++ ' ' :: l0)) := by
+    rw [hline0, hc0r]; rfl
+  have hrej : ∀ r ∈ pre, runRule cfg' (tokenize cfg' (G + 1)) (testRules cfg' (G + 1)) (G + 2) r
+      (BState.fresh (itemDoc mk D) .root []) false = .ok (false, BState.fresh (itemDoc mk D) .root []) :=
+    fun r hr => front_rejects_L (hpre r hr) hind0 hline0' (hc0 c0 r0 hc0r) (fun hrr => by
+      subst hrr
+      have := hhr hr l0 t0 rest hL0
+      rw [hc0r] at this; exact this)
+  have hrun : runChain (runRule cfg' (tokenize cfg' (G + 1)) (testRules cfg' (G + 1)) (G + 2)) cfg'.chain
+      (BState.fresh (itemDoc mk D) .root []) false = .ok (true, t1) := by
+    rw [R.chain, hchain, runChain_front_L pre _ hrej]
+    simp only [runChain, runRule, hrule]
+  have htok : tokenize cfg' (G + 2) (BState.fresh (itemDoc mk D) .root []) = .ok { t1 with tight := !false } := by
+    simp only [tokenize, engine]
+    exact tokLoop_one (by show 0 < (Lines.splitLines (itemDoc mk D)).length; rw [hn']; omega) hne0 hind0
+      (by rw [R.nesting]; exact Nat.succ_pos _) hrun (by rw [h1]; exact hn1) (by rw [h1, h2]; exact Nat.le_refl _)
+  unfold parseBlocks
+  rw [hG, htok]
+  simp [h3, h4, h5]
 end outer
+
+/-! ### bullet markers -/
+
+section bullet
+
+theorem mkOk_bullet {c : Char} (hc : c = '-' ∨ c = '*' ∨ c = '+') : MkOk [c] := by
+  refine ⟨by simp, ?_, ?_⟩
+  · intro x hx; simp at hx; subst hx; rcases hc with rfl | rfl | rfl <;> decide
+  · intro x hx; simp at hx; subst hx; rcases hc with rfl | rfl | rfl <;> decide
+
+theorem detect_bullet {c : Char} (hc : c = '-' ∨ c = '*' ∨ c = '+') (rest : List Char) :
+    detectMarker ([c] ++ ' ' :: rest) = .ok (some (([c] : List Char).length, none)) := by
+  rcases hc with rfl | rfl | rfl <;>
+    simp [detectMarker, skipOrdered, skipBullet, isDigit, isBlank, pure, Except.pure]
+
+theorem markerChar_bullet {c : Char} (hc : c = '-' ∨ c = '*' ∨ c = '+') (rest : List Char) :
+    markerCharOf ([c] ++ ' ' :: rest) ([c] : List Char).length = .ok c := by
+  have hs : Lines.slice ([c] ++ ' ' :: rest) 0 1 = .ok [c] :=
+    Lines.slice_eq_ok_iff.mpr ⟨[], ' ' :: rest, rfl, rfl, by
+      rcases hc with rfl | rfl | rfl <;> decide⟩
+  simp [markerCharOf, hs, liftL, pure, Except.pure]
+
+/-- **C06, list half, bullet markers.**  `c` one of `-`, `*`, `+`; `D` a tab-free document (below 2 GiB)
+    whose first line is not blank and is indented by 0 or ≥ 4 columns; the list rule stands in the chain
+    behind rules of `frontOkL` only (code, fence, blockquote, hr, reference, heading: any selection and
+    order, in particular the shipped one) and, if the thematic-break rule is among them, `c ++ " " ++`
+    (first line of `D`) is not a thematic break; `max_nesting ≥ 1`.  If the block tokenizer accepts `D`
+    with final state `t`, then with two more levels of nesting allowed `itemDoc [c] D` parses to
+    `Root [ BulletList c [ ListItem (blocks of D, moved by tau) ] ]`, list and item over all lines, the
+    paragraphs unwrapped iff `t.tight`; same reference map. -/
+theorem item_commutes_bullet (cfg : Cfg) {c : Char} (hc : c = '-' ∨ c = '*' ∨ c = '+')
+    (D : List Char) (htab : '\t' ∉ D) (hsize : Lines.byteLen D + 10 < 2147483648)
+    (hfirst : FirstOk (Lines.linesT D)) (hnest : 0 < cfg.maxNesting)
+    (pre post : List RuleId) (hchain : cfg.chain = pre ++ .list :: post)
+    (hpre : ∀ r ∈ pre, frontOkL r = true)
+    (hhr : .hr ∈ pre → ∀ l0 t0 rest, Lines.linesT D = (l0, t0) :: rest → hrLook 0 (c :: ' ' :: l0) = false)
+    {t : BState} (h : tokenize cfg (fuelFor cfg D) (BState.fresh D .root []) = .ok t) :
+    ∃ r, Lines.getMap (Lines.splitLines (itemDoc [c] D)) 0 ((Lines.linesT D).length - 1) = .ok r ∧
+      parseBlocks { cfg with maxNesting := cfg.maxNesting + 2 } (itemDoc [c] D) =
+      .ok (⟨.root, some (0, Lines.byteLen (itemDoc [c] D)),
+            [⟨.bulletList c, some r, [⟨.listItem, some r,
+              if t.tight then markTight (relocNodes (tau 2 (Lines.linesT D)) t.children)
+              else relocNodes (tau 2 (Lines.linesT D)) t.children⟩]⟩]⟩, t.refs) :=
+  item_commutes_gen cfg (mkOk_bullet hc) (detect_bullet hc) (markerChar_bullet hc)
+    (fun x r hx => by
+      simp at hx
+      obtain ⟨rfl, _⟩ := hx
+      rcases hc with rfl | rfl | rfl <;> decide)
+    D htab (by simpa using hsize) hfirst hnest pre post hchain hpre hhr h
+
+end bullet
 
 end MdIt.Block.Li
